@@ -4,6 +4,7 @@ import (
 	"context"
 	"errors"
 	"fmt"
+	"time"
 
 	capnp "capnproto.org/go/capnp/v3"
 	"capnproto.org/go/capnp/v3/simrt"
@@ -96,7 +97,12 @@ func (t *SimTransport) NewMessage(ctx context.Context) (rpccp.Message, func() er
 			// stall until the context is cancelled (or the clock passes its deadline)
 			t.s.Fault("send_stall")
 			t.sendActive++
-			t.s.Block("send-stall", func() bool { return ctx.Err() != nil })
+			deadline := t.s.Now() + 10*time.Second // fake time: a stalled write eventually fails
+			t.s.Block("send-stall", func() bool { return ctx.Err() != nil || t.s.Now() >= deadline })
+			if ctx.Err() == nil {
+				t.sendActive--
+				return errors.New("rpcsim: stalled write timed out")
+			}
 			t.sendActive--
 			return ctx.Err()
 		}
